@@ -11,8 +11,6 @@ Definition merge2_model (lit : string -> outcome litres) (cfg : mconfig) (l r : 
   | OutOfFuel => (l, Some OracleMiss)
   end.
 
-Inductive mdmode := MCondense | MAcross | MMatrix.
-
 Definition multidoc_run (lit : string -> outcome litres) (cfg : mconfig) (m : mdmode) (ls rs : list node)
   : outcome (list node * nat) :=
   match m with
@@ -20,3 +18,9 @@ Definition multidoc_run (lit : string -> outcome litres) (cfg : mconfig) (m : md
   | MAcross => merge_across node (merge2_model lit cfg) ls rs
   | MMatrix => merge_matrix node (merge2_model lit cfg) ls rs
   end.
+
+(* merge_docs with the mode as the option text (None = attribute absent) and the
+   right-hand stream as loaded from its file (None = not loadable) *)
+Definition merge_docs_run (lit : string -> outcome litres) (cfg : mconfig) (mode : option string)
+           (ls : list node) (rs : option (list node)) : outcome (list node * nat) :=
+  merge_docs node (merge2_model lit cfg) (get_multidoc_mode mode) rs ls.
